@@ -324,13 +324,16 @@ fn cli_rss(ctx: &Ctx) {
     let large: u64 = ctx.tier.pick(256u64 << 20, 1u64 << 30);
     let mut results = serde_json::Map::new();
     for (mode, enc_args, dec_args, epw, dpw) in [
+        ("password, input named as /dev/stdin", vec!["password", "encrypt", "/dev/stdin", "--env-pass"], vec!["password", "decrypt", "/dev/stdin", "--env-pass"], "pw", "pw"),
         ("password", vec!["password", "encrypt", "--env-pass"], vec!["password", "decrypt", "--env-pass"], "pw", "pw"),
         ("key", vec!["encrypt", "-t", "bob", "-f", "alice", "-k", "kr.txt", "--env-pass"], vec!["decrypt", "-t", "bob", "-k", "kr.txt", "--env-pass"], "apw", "bpw"),
     ] {
         let mut rss = Vec::new();
         let mut failed = false;
         for (label, n) in [("small", small), ("large", large)] {
-            let ct = wd.file(&format!("{}-{}.ktl", mode, label));
+            // the path-named lane keeps the ciphertext in this process to feed it through a pipe: 64 MiB is plenty to show growth
+            let n = if mode.contains("/dev/stdin") && label == "large" { 64u64 << 20 } else { n };
+            let ct = wd.file(&format!("{}-{}.ktl", mode.replace(|c: char| !c.is_ascii_alphanumeric(), "_"), label));
             // ru_maxrss of a child spawned by this monitor is polluted by the monitor's own high-water mark
             // (the kernel records the old mm's hiwater at exec); GNU time(1) is a tiny intermediate parent
             // whose wait4 reading of the real binary is clean.
@@ -349,7 +352,9 @@ fn cli_rss(ctx: &Ctx) {
             let mut eo = e.run();
             let da = timed(&dec_args, &drss.to_string_lossy());
             let dar: Vec<&str> = da.iter().map(|x| x.as_str()).collect();
-            let mut d = Cmd::new(&wd.path, &dar).bin("/usr/bin/time".into()).pass(dpw).stdin(Stdin::File(ct.clone())).stdout(Stdout::Null);
+            // decrypt reads the ciphertext through a pipe as well when the input is named by path (a FIFO-like source)
+            let dec_stdin = if mode.contains("/dev/stdin") { Stdin::Bytes(std::fs::read(&ct).unwrap_or_default()) } else { Stdin::File(ct.clone()) };
+            let mut d = Cmd::new(&wd.path, &dar).bin("/usr/bin/time".into()).pass(dpw).stdin(dec_stdin).stdout(Stdout::Null);
             d.timeout = std::time::Duration::from_secs(900);
             let mut dout = d.run();
             eo.maxrss_kb = read_rss(&erss);
@@ -407,6 +412,6 @@ pub fn run(ctx: &Ctx) {
     in_process(ctx);
     cli_rss(ctx);
     ctx.require("streams within memory and lag bounds", 8);
-    ctx.require("cli ", 2);
+    ctx.require("cli ", 3);
     let _ = Tier::Quick;
 }
